@@ -9,3 +9,4 @@ open PdModel.IdAlloc PdModel.Spec
 #print axioms lost_race_cannot_extend
 #print axioms stored_monotone
 #print axioms C04.check_iff
+#print axioms id_alloc_sections_locked
